@@ -49,7 +49,10 @@ def seeded_changes():
         meta = os.path.join(root, sid, 'meta.json')
         if os.path.exists(meta):
             with open(meta, encoding='utf-8') as fil:
-                prop = json.load(fil)['property']
+                rec = json.load(fil)
+            # 'check_with': the check that is expected to report the change when that is not
+            # the property it was written against (see the meta file for the reason)
+            prop = rec.get('check_with', rec['property'])
             out.append({'id': 'seeded/' + sid, 'property': prop,
                         'patch': os.path.join(root, sid, 'patch.diff')})
     return out
